@@ -34,7 +34,7 @@ COMPONENTS = {
     'stub': ['user objective with failure plan', 'PRNG seam (seeded + extreme legal draws)', 'joblib', 'time.time', 'uuid1'],
 }
 PROBES_EXPECTED = ['evaluated_vectors', 'sbx_calls', 'pm_calls', 'um_calls', 'num_calls', 'generator_calls', 'prng_extreme',
-                   'on_lower_bound', 'on_upper_bound', 'reroll_checked', 'operators_family', 'coincident_parents',
+                   'integer_typed_parents', 'on_lower_bound', 'on_upper_bound', 'reroll_checked', 'operators_family', 'coincident_parents',
                    'second_run_after_narrowing']
 
 
@@ -227,6 +227,12 @@ def _operators(D):
                 else:
                     p2 = [min(max(x + (q['bounds'][1] - q['bounds'][0]) * 1e-15, q['bounds'][0]), q['bounds'][1])
                           for x, q in zip(p1, params)]
+                if D.dec('work', ('intp', o), 5) == 1:
+                    # designs written with integer coordinates ([1, -2, 3] is a legal design) where the box contains them
+                    ip1, ip2 = [int(round(x)) for x in p1], [int(round(x)) for x in p2]
+                    if all(q['bounds'][0] <= v <= q['bounds'][1] for v, q in zip(ip1 + ip2, params + params)):
+                        p1, p2 = ip1, ip2
+                        ctx.probe('integer_typed_parents')
                 prob = (1.0, 0.5, 0.0, 1.0 / w.n)[D.dec('work', ('prob', o), 4)]
                 if kind == 'sbx':
                     di = (15, 0, 1, 20, 100)[D.dec('work', ('di', o), 5)]
